@@ -935,16 +935,60 @@ def rule_contract_factories(ctx: Ctx, rule: str = "through-constructor") -> None
             return None
         return "expression %s" % norm(e)[:50]
 
+    def value_ok(v) -> Optional[bool]:
+        """a simulated return value: True = a contract out of the constructor / another contract-returning method,
+        False = an operand (or a piece of one) handed back, None = not recognised"""
+        if not isinstance(v, tuple) or not v:
+            return None
+        if v[0] == "tuple" and v[1]:
+            return value_ok(v[1][0])
+        if v[0] == "item" and v[2] == 0:
+            return value_ok(v[1])
+        if v[0] == "new" and "IoContract" in str(v[1]):
+            return True
+        if v[0] == "call" and (str(v[1]).startswith("type(") or str(v[1]) == "?"):
+            return None
+        if v[0] == "mcall" and v[1] in names_ok:
+            return True
+        if v[0] == "call" and str(v[1]).split(".")[-1] in names_ok:
+            return True
+        if v[0] == "param" or (v[0] == "attr" and isinstance(v[1], tuple) and v[1] and v[1][0] == "param"):
+            return False
+        return None
+
+    def by_paths(fi) -> Optional[str]:
+        """'' when every returning path hands back a validated contract, a reason when one hands back an operand,
+        None when the simulated values are not all recognised (then the syntax is read)"""
+        from .pathsim import Sim as _Sim
+        from .pathsim import show as _show
+
+        try:
+            ps = [p for p in _Sim(prog, fi, loop_iters=(0, 1, 2)).paths() if p.terminal == "return"]
+        except AnalysisError:
+            return None
+        if not ps:
+            return None
+        verdicts = [value_ok(p.value) for p in ps]
+        for p, vd in zip(ps, verdicts):
+            if vd is False:
+                return "a path returns %s, an operand, not a contract out of the constructor (path %s)" % (_show(p.value, 3), p.label()[:60])
+        return "" if all(vd is True for vd in verdicts) else None
+
     for fi in targets:
-        for node in ast.walk(fi.node):
-            if isinstance(node, ast.Return) and node.value is not None:
-                n += 1
-                construct = "%s returns a contract built by the validating constructor" % fi.key
-                r = producer(node.value, fi, set())
-                if r is None:
-                    ctx.ok(rule, fi.key, construct)
-                else:
-                    ctx.violation(rule, fi.key, construct, "returns %s (%s): the constructor's checks are bypassed" % (norm(node.value)[:60], r), where="%s:%d" % (fi.module.relpath, node.lineno))
+        rets = [node for node in ast.walk(fi.node) if isinstance(node, ast.Return) and node.value is not None]
+        sem = None
+        if any(producer(node.value, fi, set()) is not None for node in rets):
+            sem = by_paths(fi)  # the syntax is not one of the known shapes: ask the simulated paths
+        for node in rets:
+            n += 1
+            construct = "%s returns a contract built by the validating constructor" % fi.key
+            r = producer(node.value, fi, set())
+            if r is None or sem == "":
+                ctx.ok(rule, fi.key, construct)
+            elif sem:
+                ctx.violation(rule, fi.key, construct, sem + ": the constructor's checks are bypassed", where="%s:%d" % (fi.module.relpath, node.lineno))
+            else:
+                ctx.violation(rule, fi.key, construct, "returns %s (%s): the constructor's checks are bypassed" % (norm(node.value)[:60], r), where="%s:%d" % (fi.module.relpath, node.lineno))
     ctx.floor("contract-returning return statements", n, 12)
     # the validated fields are written only by the constructor (and the documented in-place simplify)
     fields = {"a", "g", "inputvars", "outputvars"}
